@@ -446,6 +446,25 @@ def run(ctx):
                   "duplicate test: %s" % "; ".join(a for a, _ in ats if isinstance(a, str))[:70], "decided on the label's value",
                   "the duplicate test compares objects by identity (`%s`): a network that lists the same object twice has two "
                   "entries with one label and is accepted" % (ident[0] if ident else "?"))
+    # the equation text reaches the parser as written: whoever calls _fromstring hands it its own argument, not a rewritten copy
+    # (replacing other arrow spellings, or any character a label may contain, changes which species the equation names)
+    nraw = 0
+    for fq in list(py.mods["rdnetwork"].funcs.values()):
+        for c in pyfe.calls_in(fq):
+            if isinstance(c.func, ast.Attribute) and c.func.attr == "_fromstring" and c.args and isinstance(c.args[0], ast.Name):
+                p_ = c.args[0].id
+                re_ = [st for st in ast.walk(fq) if isinstance(st, (ast.Assign, ast.AugAssign)) and any(
+                    isinstance(t, ast.Name) and t.id == p_ for t in (st.targets if isinstance(st, ast.Assign) else [st.target]))]
+                nraw += 1
+                ctx.check(not re_ and p_ in pyfe.params(fq), "C19.ACCUM", re_[0] if re_ else c, fq._qual, "_fromstring(%s)" % p_,
+                          "the equation text as given", "the equation text is rewritten (`%s`) before it is parsed: a label containing "
+                          "the replaced characters no longer names its species, the printed equation does not read back"
+                          % (pyfe.src(re_[0])[:50] if re_ else p_))
+    ctx.need(nraw >= 1, "C19.ACCUM", "no caller of _fromstring found")
+    # the rate-constant dimension test relies on `!=` between dimension objects (shared clause, C06.EQ3)
+    from ..core import borrow
+    from . import c06 as _c06
+    borrow(ctx, "C19", _c06.rule_eq3, py)
     init = py.fn("rdnetwork.RDNetwork.__init__")
     ctx.check(pyfe.src(init.body[-1]) == "self._assert_validity()", "C19.VALID", init, init._qual,
               "construction ends with _assert_validity()", "", "validity not asserted")
